@@ -17,7 +17,7 @@ Template directives (all start with //@ at the beginning of a line):
        //@contract                  following lines = requires/ensures clauses placed between signature and body
        //@loop N                    following lines = invariant/decreases clauses for the N-th loop (0-based, textual order)
        //@after /REGEX/             following lines inserted after the (single) body line matching REGEX
-       //@before /REGEX/            following lines inserted before the (single) body line matching REGEX
+       //@before /REGEX/ [#K]       following lines inserted before the (single, or K-th) body line matching REGEX
        //@no-twin                   no vacuity twin (trait-impl methods cannot get one: the contract is on the trait)
        //@prologue                  following lines inserted at the top of the fn body (used with //@sig to re-bind
                                     pattern parameters, which Verus does not accept in signatures)
@@ -184,10 +184,18 @@ def insert_hints(body, hints, report):
     """hints: list of (where, regex, text)."""
     lines = body.split('\n')
     for where, rx, text in hints:
-        hits = [i for i, ln in enumerate(lines) if re.search(rx, ln) and not ln.lstrip().startswith('//@')]
-        if len(hits) != 1:
+        nth = None
+        if isinstance(rx, tuple):
+            rx, nth = rx
+        hits = [i for i, ln in enumerate(lines) if re.search(rx, ln) and not ln.lstrip().startswith('//@') and not ln.startswith('/*ghost*/')]
+        if nth is not None:
+            if nth >= len(hits):
+                raise AnchorError(f'hint anchor /{rx}/ #{nth}: only {len(hits)} matches')
+            i = hits[nth]
+        elif len(hits) != 1:
             raise AnchorError(f'hint anchor /{rx}/ matched {len(hits)} lines')
-        i = hits[0]
+        else:
+            i = hits[0]
         ins = ['/*ghost*/ ' + t if t.strip() else t for t in text.rstrip('\n').split('\n')]
         if where == 'after':
             lines[i + 1:i + 1] = ins
@@ -218,7 +226,10 @@ def process_block(kind, header, dirs, report):
     substs = [d[1] for d in dirs if d[0] == 'subst']
     contract = '\n'.join(d[2] for d in dirs if d[0] == 'contract')
     loops = {int(d[1]): d[2] for d in dirs if d[0] == 'loop'}
-    hints = [(d[0], parse_rx(d[1]), d[2]) for d in dirs if d[0] in ('after', 'before')]
+    def parse_hint(a):
+        mm = re.match(r'^(/.*/)\s+#(\d+)\s*$', a.strip())
+        return (parse_rx(mm.group(1)), int(mm.group(2))) if mm else parse_rx(a)
+    hints = [(d[0], parse_hint(d[1]), d[2]) for d in dirs if d[0] in ('after', 'before')]
     keep_panics = any(d[0] == 'keep-panics' for d in dirs)
     keep_minmax = any(d[0] == 'keep-minmax' for d in dirs)
     entry = {'kind': kind, 'file': file, 'rewrites': {}}
